@@ -1,10 +1,13 @@
 """C14 — a conformer ensemble stays rectangular and its conformers are live views.
 
 M: TLC checks Ensemble.tla (constructors, append/extend, collective transformations in integer arithmetic,
-   writes through conformers, independent iterators, dump / store) for Rectangular, WriteThrough,
-   EachOnceInOrder, TransformsOnlyCoords, DumpableAndStorable ...; eight named deviations must each be caught.
-A: every (state, action) pair of four bounded slices of the model (grow, iterate, view+transform, io) is
-   executed on real ConformerEnsemble / Conformer objects; after every call the public arrays, every row
+   one matrix / vector per conformer, writes through conformers, a copy-constructed ensemble next to its still
+   living source, independent iterators, dump / store) for Rectangular, WriteThrough, SourceUntouched,
+   CopyUntouched, StackIsRowwise, EachOnceInOrder, TransformsOnlyCoords, DumpableAndStorable ...; ten named
+   deviations must each be caught.
+A: every (state, action) pair of bounded slices of the model (grow, iterate, view+transform, copy+source, io) is
+   executed on real ConformerEnsemble / Conformer objects; after every call the public arrays, the arrays of
+   the source ensemble of the last copy construction, every row
    as read through ens[i] (held and fresh views), and the returned values (yielded conformer, re-parsed
    dump text, stored-and-reloaded ensemble) must equal the model's.
 B: seeded random histories (random ensembles and the bundled pentane ensemble) are executed on the real
@@ -33,16 +36,18 @@ def known_for(sig):
 
 INV = ("TypeOK", "Rectangular", "EachOnceInOrder")
 PROPS = ("StopOnlyAtEnd", "YieldsTheRow", "WriteThrough", "TransformsOnlyCoords", "TranslateIsUniform", "GrowKeepsOld",
-         "AppendAddsTheRow", "CopyIsFaithful", "FailedOpIsNoOp", "ReadsChangeNothing", "DumpableAndStorable")
+         "AppendAddsTheRow", "CopyIsFaithful", "FailedOpIsNoOp", "ReadsChangeNothing", "DumpableAndStorable",
+         "SingleTransformsSucceed", "StackIsRowwise", "SourceUntouched", "CopyUntouched")
 ACTIONS = {
-    "grow": ("NewAtoms", "NewMol", "NewList", "NewCopy", "AppendC", "ExtendList", "ExtendEns", "ExtendOther"),
+    "grow": ("NewAtoms", "NewMol", "NewList", "AppendC", "ExtendList", "ExtendEns", "ExtendOther"),
     "iter": ("StartIter", "NextIt"),
     "view": ("VWriteC", "VWriteQ", "VSetAtom", "VTranslate", "SetW"),
-    "xform": ("Scale", "Invert", "Translate", "Rotate", "CenterAt"),
+    "xform": ("Scale", "Invert", "Translate", "Rotate", "CenterAt", "RotateStack", "TranslateStack"),
+    "copy": ("NewCopy", "SrcWriteC", "SrcWriteQ", "SrcSetW", "SrcTranslate"),
     "dump": ("Dump", "Ser"),
     "io": ("CDump", "CSer", "Slice"),
 }
-OPS = {"OpsAll": ("grow", "iter", "view", "xform", "dump", "io"), "OpsGrow": ("grow", "dump"), "OpsIter": ("iter", "dump"),
+OPS = {"OpsAll": ("grow", "iter", "view", "xform", "dump", "io", "copy"), "OpsNoCopy": ("grow", "iter", "view", "xform", "dump", "io"), "OpsMix": ("grow", "iter", "view", "xform", "dump", "copy"), "OpsCopy": ("copy", "view", "xform"), "OpsCopyV": ("copy", "view"), "OpsCopyX": ("copy", "xform"), "OpsGrow": ("grow", "dump"), "OpsIter": ("iter", "dump"),
        "OpsView": ("view", "xform", "dump"), "OpsIO": ("grow", "io")}
 CUNIT = 250000          # one coordinate unit of MCEnsemble.tla in micro-Angstrom
 
@@ -55,7 +60,9 @@ DEVIATIONS = {
     "DevQRO": ("OpsView", "WriteThrough"),
     "DevScaleQ": ("OpsView", "TransformsOnlyCoords"),
     "DevTrFirst": ("OpsView", "TranslateIsUniform"),
-    "DevCopyW": ("OpsGrow", "CopyIsFaithful"),
+    "DevCopyW": ("OpsCopy", "CopyIsFaithful"),
+    "DevShare": ("OpsCopy", "SourceUntouched"),
+    "DevStack": ("OpsView", "Rectangular"),
 }
 
 
@@ -88,27 +95,30 @@ def slices(tier):
                 ("view2", dict(ops="OpsView", pool="Pool2", maxc=2, maxt=2, rots="Rots2", vecs="Vecs2", facs="Facs2", ws="Ws2")),
                 ("view3", dict(ops="OpsView", pool="Pool2", maxc=3, maxt=2)),
                 ("view1", dict(ops="OpsView", pool="Pool2", maxc=1, maxt=3, rots="Rots2", vecs="Vecs2", facs="Facs2", ws="Ws2")),
+                ("copy", dict(ops="OpsCopy", pool="Pool2", maxc=2, maxt=2)),
                 ("io", dict(ops="OpsIO", pool="Pool2x", maxc=3))]
     return [("grow", dict(ops="OpsGrow", pool="Pool2x", maxc=3)),
             ("iter", dict(ops="OpsIter", pool="Pool2", it="It2", maxc=3)),
             ("view", dict(ops="OpsView", pool="Pool2", maxc=2, maxt=2)),
+            ("copy", dict(ops="OpsCopy", pool="Pool2", maxc=1, maxt=2)),
+            ("copyx", dict(ops="OpsCopyX", pool="Pool2", maxc=2, maxt=2)),
             ("io", dict(ops="OpsIO", pool="Pool2x", maxc=2))]
 
 
 def mixed(tier):
-    """the model with all action groups together (invariants only, not replayed)"""
+    """models with the action groups together (invariants only, not replayed)"""
     if tier == "thorough":
-        return dict(ops="OpsAll", pool="Pool2", it="It2", maxc=2, maxt=2)
-    return dict(ops="OpsAll", pool="Pool2x", it="It1", maxc=2, maxt=1)
+        return [dict(ops="OpsMix", pool="Pool2", it="It1", maxc=2, maxt=2), dict(ops="OpsNoCopy", pool="Pool2", it="It2", maxc=2, maxt=2)]
+    return [dict(ops="OpsMix", pool="Pool2", it="It1", maxc=2, maxt=1)]
 
 
 # ----------------------------------------------------------------------------------------------
 def part_model(tier, ev, workers):
     """TLC on the model itself + non-vacuity of every deviation (parallel JVMs, few workers each)."""
     jobs = []
-    mx = mixed(tier)
-    jobs.append(lambda: model_check(ev, "MCEnsemble", cfg(**mx), role=f"Ensemble, all action groups {mx}", tag="c14mc",
-                                    workers=workers, timeout=1500, require_actions=acts("OpsAll")))
+    for mx in mixed(tier):
+        jobs.append(lambda mx=mx: model_check(ev, "MCEnsemble", cfg(**mx), role=f"Ensemble, action groups together {mx}", tag="c14mc",
+                                              workers=workers, timeout=1500, require_actions=acts(mx["ops"])))
     for name, kw in slices(tier):
         jobs.append(lambda name=name, kw=kw: model_check(ev, "MCEnsemble", cfg(**kw), role=f"Ensemble slice {name} {kw}",
                                                          tag="c14mc", workers=1, timeout=900, require_actions=acts(kw["ops"])))
@@ -271,6 +281,8 @@ def run(tier, seed, replay_path):
         "left free: charge row of an appended geometry (own or zero), weights of rows taken from another ensemble (its or 1), "
         "extend([]) may raise, an ensemble without atoms may refuse or adopt its first conformer, exception classes",
         "iterators and held conformers are not used across a change of the number of conformers",
+        "only the source of the LAST copy construction is kept and observed; a stack of exactly one matrix / vector applied to "
+        "several conformers (numpy broadcasting of a single transformation) is not generated",
         "rotations are signed permutation matrices, scale factors integers (exact integer arithmetic in the specification); "
         "values are multiples of 1/64 A so that float32 storage is exact; pickling / copying is C06, the v1 codec is C01",
         "trusted: TLC, numpy, the harness's re-parsing of xyz / mol2 text, msgpack"]
